@@ -133,7 +133,8 @@ class ParticleReleaser(Iterator[pd.DataFrame]):
         logger.info("  Number of release times: %d", len(self.times))
 
         # Make dataframes for each timeframe
-        self._B = [x[1] for x in self._df.groupby(self._df.index)]
+        # sort=False: keep the order of self.times (descending with time reversal)
+        self._B = [x[1] for x in self._df.groupby(self._df.index, sort=False)]
 
         # # Read the particle variables
         self._index = 0  # Index of next release
